@@ -65,6 +65,7 @@ class Interp(CoreMixin, ExprMixin, StmtMixin, CallMixin):
         self.watch_locals = set()
         self.kept_locals = {}
         self.watch_calls = set()
+        self.call_records = []
         self.analyse_generators = set()   # qualnames of generator functions whose body is evaluated (yield = effect)
         self._memoised = {}             # (function, argument value numbers) -> cached result node
         self.call_log = []
